@@ -67,7 +67,10 @@ parse_psm = Contract(
         1: Loop(invariant=["True"]),
     },
     raises={"TypeError": "True", "ValueError": "True"},
-    abstract_ok=["mod_pep = mod_pep[:idx]", "idx = offset + int(", "offset += 2 + len(mass)"],
+    # the string surgery is verified by the #mods block below; the final join only changes the representation of the
+    # protein list (the contract speaks about the list before it, ghost plist)
+    abstract_ok=["mod_pep = mod_pep[:idx]", "idx = offset + int(", "offset += 2 + len(mass)",
+                 "psm['proteins'] = '\\t'.join("],
 )
 
 # ---------------------------------------------------------------------------------------------------------------
